@@ -334,7 +334,7 @@ def package_mc(tier):
 def template_mc(tier):
     """exhaustive TLC runs of the ObjectTemplate controller model (spec/PKOTemplate.tla): triggers, label-filtered events, retry timers"""
     q = tier == 'quick'
-    c = dict(Vals='MCVals', WatchBeforeRead='TRUE', TimerOptional='TRUE', OtherWatcher='TRUE', MaxEdit=4 if q else 6, MaxCrash=1)
+    c = dict(Vals='MCVals', WatchBeforeRead='TRUE', TimerOptional='TRUE', OtherWatcher='TRUE', CopyEnv='TRUE', MaxEdit=4 if q else 6, MaxCrash=1)
     inv = ['TypeOK', 'Inv_C18_OutputIsRender', 'Inv_C18_Freed']
     return [dict(name='template-intended', kind='gen', module='MC_PKOTemplate', spec='FairSpec', constants=c, invariants=inv,
                  props=['Live_C18_EventuallyCurrent'], timeout=3000),
@@ -344,6 +344,9 @@ def template_mc(tier):
             dict(name='template-negctl-watch', kind='gen', module='MC_PKOTemplate', constants=dict(c, WatchBeforeRead='FALSE'),
                  invariants=['Inv_C18_OutputIsRender'], expect_violation='Inv_C18_OutputIsRender'),
             dict(name='template-negctl-timer', kind='gen', module='MC_PKOTemplate', constants=dict(c, TimerOptional='FALSE'),
+                 invariants=['Inv_C18_OutputIsRender'], expect_violation='Inv_C18_OutputIsRender'),
+            # the environment sink handing out a shallow copy: a neighbour's hosted cluster leaks into t's render
+            dict(name='template-negctl-env', kind='gen', module='MC_PKOTemplate', constants=dict(c, CopyEnv='FALSE'),
                  invariants=['Inv_C18_OutputIsRender'], expect_violation='Inv_C18_OutputIsRender')]
 
 
